@@ -15,8 +15,8 @@ type wAdapter[P any, E any] struct {
 	ref   *curve.WCurve[E]
 	toRef func(P) (curve.WPoint[E], error)
 	toLib func(curve.WPoint[E]) (P, error)
-	comps func(E) []*big.Int   // canonical components
-	mk    func([]*big.Int) E   // components (reduced mod p here) -> element
+	comps func(E) []*big.Int // canonical components
+	mk    func([]*big.Int) E // components (reduced mod p here) -> element
 	deg   int
 	p     *big.Int
 }
@@ -89,10 +89,10 @@ type ncoord struct {
 
 type wSpecials[E any] struct {
 	G, G2    curve.WPoint[E]
-	xNoY     []*big.Int          // abscissa without a point
-	off      []curve.WPoint[E]   // points of the curve outside the prime-order subgroup (cofactor != 1), ± pairs
-	aliasSrc []curve.WPoint[E]   // valid group elements whose x may have an unreduced alias x+p
-	x0       []curve.WPoint[E]   // points with x = 0
+	xNoY     []*big.Int        // abscissa without a point
+	off      []curve.WPoint[E] // points of the curve outside the prime-order subgroup (cofactor != 1), ± pairs
+	aliasSrc []curve.WPoint[E] // valid group elements whose x may have an unreduced alias x+p
+	x0       []curve.WPoint[E] // points with x = 0
 }
 
 func (a *wAdapter[P, E]) specials() wSpecials[E] {
